@@ -22,6 +22,7 @@ func init() { fw.Register(&c07{Base: Base{Id: "C07", Lvl: "exploration"}}) }
 
 func (p *c07) Setup(env *fw.Env) error {
 	p.Env = env
+	xgocWarm(env)
 	p.pool = xgoPool(env)
 	p.N = len(p.pool) + env.Pick(1500, 120000)
 	p.RuleS = fmt.Sprintf("every repository XGo/class file and harvested test snippet (%d) as a single-file package, then generated XGo / class / Go files (syntactic generator, mostly ill-typed), token- and byte-mutated variants of corpus and generated sources (the parser's partial ASTs are compiled too), multi-file packages (2-3 files, XGo + class + Go mixes, duplicate declarations across files), each through cl.NewPackage+WriteTo or through x/build BuildFile/BuildFSDir. Oracle: no panic or runtime fatal error escapes; the cl step hook (compileStmt/compileExpr/typeLoader.load) stays below 200*(tokens)+10^5; every reported error whose text carries file:line:col names a file of the package and a line/column inside it. Non-trivial = the package reached cl.NewPackage; distinct by sources.", len(p.pool))
